@@ -53,6 +53,10 @@ func judge2(s ref.Shape2, o, d V2) judged2 {
 		if h.Feat < tolFeature*size {
 			return fail("near-vertex")
 		}
+		// see judge3: eps*L^2/rho must be small against the feature
+		if L := o.Dist(h.P); 2.3e-16*L*L > 0.01*h.Feat*h.Feat {
+			return fail("feature-too-small-for-its-distance")
+		}
 		if i > 0 && (h.T-j.hits[i-1].T)*dn < tolSeparate*size {
 			return fail("coincident-hits")
 		}
@@ -153,7 +157,7 @@ func checkRay2(c *kase, s *subject2, o, d V2) {
 		res := math.Abs(s.ref.SDF(p))
 		c.Count("clause.on_surface", 1)
 		c.Max("worst_on_surface_residual_rel."+s.api, res/size)
-		if !(res <= tolOnSurface*size+1e-12*p.Dist(s.ref.Center())) && !c.fired(key("RayCollisions", "on-surface")) {
+		if !(res <= tolOnSurface*size+1e-12*p.Dist(s.ref.Center())+farFeatureAllowance2(s.ref, o, d, g.Scale, size)) && !c.fired(key("RayCollisions", "on-surface")) {
 			w := base()
 			w["point"] = dec2(p)
 			c.Violationf(key("RayCollisions", "on-surface"), w, "hit point o+%g*d is %g away from the outline (tolerance %g)", g.Scale, res, tolOnSurface*size)
@@ -187,6 +191,10 @@ func checkRay2(c *kase, s *subject2, o, d V2) {
 		}
 	}
 
+	if mp, L := minPart2(s.ref), o.Dist(s.ref.Center())+s.ref.Size(); 2.3e-16*L*L > 0.01*mp*mp {
+		c.Undecided("ray2:a-part-is-too-small-for-its-distance-from-the-origin")
+		return
+	}
 	j := judge2(s.ref, o, d)
 	if !j.general {
 		c.Undecided("ray2:" + j.reason)
@@ -250,7 +258,7 @@ func checkBall2(c *kase, s *subject2, ctr V2, r float64) {
 	got := s.coll.CircleCollision(ctr.C2(), r)
 	want := math.Abs(sd) <= r
 	margin := math.Abs(math.Abs(sd) - r)
-	if margin <= tolTouch*(size+r+ctr.Dist(s.ref.Center())) {
+	if margin <= tolTouch*(size+r+ctr.Dist(s.ref.Center()))+1e-13*(ctr.Norm()+s.ref.Center().Norm()) {
 		c.Undecided("ball2:near-touching")
 		return
 	}
@@ -507,4 +515,38 @@ func exercise2(c *kase, s *subject2, rays, balls, points int) {
 		checkContains2(c, s, genPoint2(rng, s), s.ref.Size()*logUniform(rng, -3, -0.5))
 	}
 	c.Count(s.api+".instances", 1)
+}
+
+// farFeatureAllowance2 is the accuracy to which a closed-form intersection can locate a feature of
+// size rho from a distance L (about eps*L^2/rho, cancellation in the discriminant), for the
+// reference hit nearest to the reported ray parameter.
+func farFeatureAllowance2(sh ref.Shape2, o, d V2, scale, size float64) float64 {
+	feat := minPart2(sh)
+	for _, h := range sh.RayHits(o, d) {
+		if h.Feat > 0 && h.Feat < feat && math.Abs(h.T-scale)*d.Norm() < size {
+			feat = h.Feat
+		}
+	}
+	if !(feat > 0) {
+		return math.Inf(1)
+	}
+	L := d.Norm() * scale
+	return 64 * 2.3e-16 * L * L / feat
+}
+
+// minPart2 is the size of the smallest constituent of a reference outline.
+func minPart2(sh ref.Shape2) float64 {
+	switch t := sh.(type) {
+	case *ref.Union2:
+		m := math.Inf(1)
+		for _, p := range t.Parts {
+			m = math.Min(m, minPart2(p))
+		}
+		return m
+	case *ref.Similarity2:
+		return t.S * minPart2(t.Inner)
+	case *ref.Capsule2:
+		return math.Min(t.Size(), t.R)
+	}
+	return sh.Size()
 }
